@@ -2,6 +2,7 @@ import Tx3Proofs.C07
 import Tx3Proofs.C07Reduce
 import Tx3Proofs.C07Confluence
 import Tx3Proofs.C07Tx
+import Tx3Proofs.C06Lower
 #print axioms Tx3.Expr.C07_args_fees
 #print axioms Tx3.Expr.C07_args_inputs
 #print axioms Tx3.Expr.C07_fees_inputs
@@ -26,3 +27,4 @@ import Tx3Proofs.C07Tx
 #print axioms Tx3.sealedb_Sealed
 #print axioms Tx3.Tx.mapM_rel
 #print axioms Tx3.C07_tx_reduce_commutes_with_stage
+#print axioms Tx3.Lang.lowerTx_sealed_WF
